@@ -427,7 +427,7 @@ class Engine:
             if budget is not None and self.stats['paths'] >= budget:
                 break
             if self.stats['paths'] >= self.max_paths:
-                raise CheckerError(f'path budget exceeded ({self.max_paths}) in {self.unit}')
+                raise Unsupported(f'path budget exceeded ({self.max_paths}) in {self.unit}')
             self.prefix = self.work.pop()
             self.trace = []
             self.solver = z3.Solver()
